@@ -300,6 +300,8 @@ def _mk_group(sname):
                 tag = "".join(str(k) for k in S)
                 amp.set_used_chains(list(S))
                 tot, dens = expect(S)
+                ctx.holds("chains[%s]/selection_stored" % tag, tf.constant(list(dg.chains_idx) == list(S) and bool(dg.not_full) == (len(S) != n)),
+                          clause="after set_used_chains(S): chains_idx == S and not_full <=> S is a strict subset")
                 got = dg.get_amp(sdata)
                 ctx.eq("chains[%s]/amp.re" % tag, tf.math.real(got), tf.math.real(tot), clause="after set_used_chains(%s): Re DecayGroup.get_amp == Re sum_{k in S} A_k" % S)
                 ctx.eq("chains[%s]/amp.im" % tag, tf.math.imag(got), tf.math.imag(tot), clause="after set_used_chains(%s): Im DecayGroup.get_amp == Im sum_{k in S} A_k" % S)
@@ -311,6 +313,10 @@ def _mk_group(sname):
                     amp.set_used_res(list(sel))
                     S = [k for k, c in enumerate(dg.chains) if any(str(p_) in sel for p_ in c.inner)]
                     tot, dens = expect(S)
+                    idx = list(dg.chains_idx)
+                    ctx.holds("res[%s]/each_selected_chain_once" % "+".join(sel), tf.constant(sorted(idx) == S and len(set(idx)) == len(idx)),
+                              clause="after set_used_res(%s): chains_idx lists exactly the chains containing one of them, EACH ONCE (a chain with two selected resonances is not repeated: "
+                                     "amplitude models that iterate chains_idx directly would add it twice)" % (list(sel),))
                     ctx.eq("res[%s]/density" % "+".join(sel), amp(sdata), dens,
                            clause="after set_used_res(%s): AmplitudeModel(data) == sum_helicities |sum of the chains containing one of them|^2" % (list(sel),))
             amp.set_used_chains(list(range(n)))
